@@ -1272,7 +1272,7 @@ def planck_exitance(wave, temp, waveunit='nm', valueunit='wlam'):
     wave = np.asarray(wave, dtype=float) * Unit(waveunit).to('meter')
 
     # compute flux in W m^-2 sr^-1 m^-1
-    flux = 2*np.pi*H*C**2/(wave**5*(np.exp(H*C/(wave*K*temp))-1))
+    flux = 2*np.pi*H*C**2/(wave**5*np.expm1(H*C/(wave*K*temp)))
 
     # do flux conversion (if necessary)
     if valueunit == 'wlam':
@@ -1314,7 +1314,7 @@ def planck_radiance(wave, temp, waveunit='nm', valueunit='wlam'):
     wave = np.asarray(wave, dtype=float) * Unit(waveunit).to('meter')
 
     # compute flux in W m^-2 m^-1
-    flux = 2*H*C**2/(wave**5*(np.exp(H*C/(wave*K*temp))-1))
+    flux = 2*H*C**2/(wave**5*np.expm1(H*C/(wave*K*temp)))
 
     # do flux conversion (if necessary)
     if valueunit == 'wlam':
